@@ -131,6 +131,13 @@ def sessions_of(seed, population='core'):
         if population != 'core':
             sess['case_id'] = f'{population}:{seed}:{a}-{b}'
         out.append(sess)
+    if population == 'core':
+        # one Exporter and one ExportOptions(from_measure=2, to_measure=M) for this score, a WIDER core score and this score again
+        probe = []
+        dp.reuse_probe(doc, seed, probe, 'excerpt.same_with_reused_exporter_and_options_on_a_wider_score', profile='kern_only', need='wider',
+                       ranged=True, frm=2, snap='', max_rows=10, mid_sigs=False, mid_comments=False, max_spines=4, min_rows=4)
+        if probe:
+            out.append({'log': probe, 'text': text, 'classes': [], 'seed': seed, 'tags': [population, 'reused-options'], 'excerpt': None, 'range': [2, M]})
     return {'multi': out, 'log': [], 'text': text, 'classes': [], 'seed': seed, 'tags': [population]}
 
 
